@@ -280,3 +280,53 @@ Qed.
 Theorem encode_roundtrip (S : Type) (enc : list N -> S) (dec : S -> option (list N)) :
   (forall x, dec (enc x) = Some x) -> forall l, sl_decode S dec (sl_encode S enc l) = Ok l.
 Proof. intros H l. unfold sl_decode, sl_encode. rewrite H. reflexivity. Qed.
+
+(* ---- update() over a batch of writes ---- *)
+Lemma try_all_is_run ops : forall c c', sl_try_all ops c = Ok c' -> c' = sl_run ops c.
+Proof.
+  induction ops as [|op r IH]; intros c c' H; cbn [sl_try_all] in H; [inversion H; reflexivity|].
+  unfold sl_run. cbn [fold_left]. unfold sl_apply at 2.
+  destruct (sl_set_entry c (fst op) (snd op)) as [c1|e|]; try discriminate. exact (IH c1 c' H).
+Qed.
+(* all-or-nothing: the credential afterwards is either untouched (and the error is reported) or the result of ALL the writes *)
+Theorem update_all_spec c ops : 
+  match sl_update_all c ops with
+  | (c', Ok _) => c' = sl_run ops c /\ sl_try_all ops c = Ok c'
+  | (c', Err _) => c' = c
+  | (c', Panic) => c' = c
+  end.
+Proof.
+  unfold sl_update_all. destruct (sl_try_all ops c) as [c'|e|] eqn:E; [|reflexivity|reflexivity].
+  split; [exact (try_all_is_run ops c c' E)|reflexivity].
+Qed.
+(* one-way revocation holds through update() whatever the closure does with refusals *)
+Theorem update_revocation_monotone c ops i : cred_ok c -> sc_purpose c = PRevocation -> sl_entry c i = Ok StRevoked ->
+  sl_entry (sl_update_best_effort c ops) i = Ok StRevoked /\ sl_entry (fst (sl_update_all c ops)) i = Ok StRevoked.
+Proof.
+  intros Hc Hp He. split; [exact (revocation_monotone ops c i Hc Hp He)|].
+  pose proof (update_all_spec c ops) as S. destruct (sl_update_all c ops) as [c' [u|e|]]; cbn [fst].
+  - destruct S as [-> _]. exact (revocation_monotone ops c i Hc Hp He).
+  - subst c'. exact He.
+  - subst c'. exact He.
+Qed.
+(* the variant that writes before it checks (what a swapped set / check order does) is refuted: a best-effort batch clears a revocation *)
+Definition sl_set_entry_write_first (c : sl_cred) (i : N) (v : bool) : sl_cred * outcome unit sl_err :=
+  match sl_get (sc_list c) i with
+  | Ok cur =>
+      match sl_set (sc_list c) i v with
+      | Ok l' => let c' := {| sc_purpose := sc_purpose c; sc_list := l' |} in
+                 if sl_purpose_eqb (sc_purpose c) PRevocation && negb v && cur then (c', Err SlUnreversible) else (c', Ok tt)
+      | Err e => (c, Err e)
+      | Panic => (c, Panic)
+      end
+  | Err e => (c, Err e)
+  | Panic => (c, Panic)
+  end.
+Theorem write_first_refuted : exists c i,
+  cred_ok c /\ sc_purpose c = PRevocation /\ sl_entry c i = Ok StRevoked
+  /\ snd (sl_set_entry_write_first c i false) = Err SlUnreversible
+  /\ sl_entry (fst (sl_set_entry_write_first c i false)) i = Ok StValid.
+Proof.
+  exists {| sc_purpose := PRevocation; sc_list := [128] |}, 0.
+  split; [unfold cred_ok; cbn; repeat constructor|]. repeat split; vm_compute; reflexivity.
+Qed.
